@@ -56,6 +56,23 @@ def mode? (kind folder map : String) : Option Mode :=
   | "luau", some _, some map => some (.luau ⟨map, none⟩)
   | _, _, _ => none
 
+/-- `.luaurc` argument: `none` | `<hex dir>/<map>` (the nearest `.luaurc`: its directory and its
+raw `aliases`, keys without `@`) -/
+def rcArg? (s : String) : Option (Option (List (Name × Path))) :=
+  if s == "none" then some none
+  else match s.splitOn "/" with
+    | [dir, map] => do
+      let dir ← path? dir
+      let entries ← list? entry? map
+      pure (some (luauRcAliases dir entries))
+    | _ => none
+
+def modeRc? (kind folder map rc : String) : Option Mode :=
+  match kind, hexToChars? folder, list? entry? map, rcArg? rc with
+  | "path", some folder, some map, some rc => some (.path ⟨folder, map, rc⟩)
+  | "luau", some _, some map, some rc => some (.luau ⟨map, rc⟩)
+  | _, _, _, _ => none
+
 def handle (op : String) (args : List String) : String :=
   match op, args with
   | "comps", [p] =>
@@ -76,6 +93,14 @@ def handle (op : String) (args : List String) : String :=
     | some aliases, some proj, some found, some current =>
       charsToHex (generateRequireLuau ⟨aliases, none⟩ proj found current)
     | _, _, _, _ => "bad-args"
+  | "convrc", [cur, curFolder, curMap, curRc, tgt, tgtFolder, tgtMap, proj, fs, source, req] =>
+    match modeRc? cur curFolder curMap curRc, mode? tgt tgtFolder tgtMap, path? proj, list? path? fs, path? source, path? req with
+    | some c, some t, some proj, some fs, some source, some req =>
+      match convertRequire c t proj (memIsFile fs) req source with
+      | none => "none " ++ findWire (c.findCall proj (memIsFile fs) req source)
+      | some arg =>
+        "arg " ++ charsToHex arg ++ " found " ++ findWire (c.findCall proj (memIsFile fs) req source)
+    | _, _, _, _, _, _ => "bad-args"
   | "conv", [cur, curFolder, curMap, tgt, tgtFolder, tgtMap, proj, fs, source, req] =>
     match mode? cur curFolder curMap, mode? tgt tgtFolder tgtMap, path? proj, list? path? fs, path? source, path? req with
     | some c, some t, some proj, some fs, some source, some req =>
